@@ -414,7 +414,8 @@ impl<W: 'static, R: 'static, T: 'static> XSequence<W, R, T> {
             let element = forward_err!(element?);
             forward_err!(heap.push(element)?);
         }
-        let mut ret = Vec::with_capacity(n);
+        // at most every element can be returned, however large the requested count
+        let mut ret = Vec::with_capacity(n.min(self.len().unwrap_or(0)));
         for _ in 0..n {
             if let Some(e) = forward_err!(heap.pop()?) {
                 ret.push(e)
